@@ -337,10 +337,14 @@ func Annotation(t *TypeSpec, sp Spelling) string {
 			}
 			return t.Ref
 		}
+		name := "Anon"
 		if t.Struct.Name != "" {
-			return t.Struct.Name
+			name = t.Struct.Name
 		}
-		return "Anon"
+		if sp.PkgQual {
+			return "pkg." + name
+		}
+		return name
 	}
 	return t.Kind.String()
 }
